@@ -221,7 +221,7 @@ def main(tier):
         if not must_hold and not res.violation:
             chk.machinery('negative model (as-is check order) was not refuted (vacuity guard)')
     ctxs = '{"rooted", "detached", "multi", "foreign", "iframe", "xhtml"}'
-    replay.stream(chk, 'MC_C08_shapes', {'NAttrs': 1, 'Contexts': ctxs if tier == 'thorough' else '{"rooted", "detached", "iframe"}',
+    replay.stream(chk, 'MC_C08_shapes', {'NAttrs': 1, 'Contexts': ctxs if tier == 'thorough' else '{"rooted", "detached", "iframe", "multi"}',
                                          'TypeFirst': 'FALSE', 'OnlyInput': 'FALSE'},
                   'shapes1', _work, _init, is_header=lambda v: False, chunk=8)
     replay.stream(chk, 'MC_C08_shapes', {'NAttrs': 2, 'Contexts': ctxs if tier == 'thorough' else '{"rooted", "detached"}',
